@@ -522,7 +522,7 @@ def nontrivial(c):
 
 def run(chk, replay=None):
     targets = ["Raw/RawGdsExportCheck.vo"]
-    chk.proof_leg(targets, "Properties/C07.v", ["Raw/RawGdsExport_proofs.v"], "Properties.C07")
+    chk.proof_leg(targets, "Properties/C07.v", ["Raw/RawGdsExport_proofs.v", "Raw/RawGdsRoundtrip_proofs.v"], "Properties.C07")
     chk.assumptions += [
         "Ptr<Cell> targets are indices into the library's own cell list (libraries closed under instantiation); locks not modelled",
         "LayerKey = slot index (no layer is ever removed); Layer.purps/nums are derived from the sequence of add_purpose calls",
